@@ -641,7 +641,8 @@ package table
 //@   at-call bgp.NewPathAttributeAsPath(as2Params) requires len(as2Params) == len(asAttr.Value)
 //@   at-call bgp.NewPathAttributeAs4Path(as4Params) requires mkAs4
 //@   at-return requires asAttr != nil && !mkAs4 ==> len(msg.PathAttributes) == len(ps)
-//@   at-return requires asAttr != nil && mkAs4 ==> len(msg.PathAttributes) == len(ps) + 1
+//@   at-return requires asAttr != nil && mkAs4 && len(as4Params) > 0 ==> len(msg.PathAttributes) == len(ps) + 1
+//@   at-return requires asAttr != nil && len(as4Params) == 0 ==> len(msg.PathAttributes) == len(ps)
 
 // =============================================================================================
 // C12 - graceful restart: what the Adj-RIB-In sweep at End-of-RIB / timer expiry withdraws
